@@ -1510,6 +1510,24 @@ def register(eng):
             eng.call_callable(a[1], [x])
         return unit()
 
+    @model("Iterator::partition")
+    def _(eng, a, c):
+        yes, no = [], []
+        for x in drain_lazy(eng, a[0]):
+            (yes if eng.decide(eng.call_callable(a[1], [ref_to_value(x)])) else no).append(x)
+        m = re.search(r"::partition::<(.*)>$", c.strip(), re.S)
+        from mirparse import split_top
+        target = split_top(m.group(1))[0] if m else "Vec<_>"
+        return tup(collect(eng, list_iter(yes, False), target), collect(eng, list_iter(no, False), target))
+
+    @model("Iterator::unzip")
+    def _(eng, a, c):
+        xs, ys = [], []
+        for p in drain_lazy(eng, a[0]):
+            p = deref(p)
+            xs.append(p.fields[0]); ys.append(p.fields[1])
+        return tup(VecM(xs), VecM(ys))
+
     @model("Iterator::count")
     def _(eng, a, c): return len(drain(eng, a[0]))
 
